@@ -500,6 +500,17 @@ def pattern_programs(rng):
     # a lambda invoked per element sees its own element even when an inner call rebinds `$`
     out.append(('element-after-inner-call', C('toList', [], recv=C('select', [me.Lam(
         B('+', C('sum', [L(0)], recv=C('toList', [], recv=C('select', [me.Lam(B('*', V('$'), L(2)))], recv=l2))), V('$')))], recv=l1))))
+    # a name bound to null in an inner scope shadows the outer binding (null is a value, not "undefined")
+    N = L(None)
+    out.append(('null-shadow-let', me.Let([], [('x', L(a))], me.Let([], [('x', N)], me.ListE([V('$x'), me.Coalesce([V('$x'), L(k)])])))))
+    out.append(('null-shadow-with', me.With([L(a)], me.With([N], me.ListE([V('$'), V('$1')])))))
+    out.append(('null-shadow-doc', me.With([N], me.Coalesce([V('$1'), L(k)]))))
+    out.append(('null-shadow-unpack', me.Let([], [('p', L(a)), ('q', L(b))],
+                                             me.Unpack(me.ListE([N, L(c)]), ['p', 'q'], me.ListE([V('$p'), V('$q')])))))
+    out.append(('null-element', C('toList', [], recv=C('select', [me.Lam(me.Coalesce([V('$'), L(k)]))], recv=me.ListE([N, L(a), N])))))
+    out.append(('null-element-raw', C('toList', [], recv=C('select', [me.Lam(V('$'))], recv=me.ListE([N, L(a)])))))
+    out.append(('null-argument', me.Let([], [('x', L(a))], me.Def('f', me.ListE([V('$'), V('$1'), V('$x')]), C('f', [N])))))
+    out.append(('null-lambda-in-let', me.Let([L(a)], [], C('toList', [], recv=C('where', [me.Lam(B('=', V('$'), N))], recv=me.ListE([N, L(b)]))))))
     # with / let positional: `$` and `$1` are one variable, restored after the construct
     out.append(('dollar-alias', me.ListE([me.With([L(a)], me.ListE([V('$'), V('$1')])), me.Let([L(b)], [], V('$')),
                                           me.Coalesce([V('$2'), L(-1)])])))
